@@ -226,10 +226,33 @@ def run_fn(case, ctx) -> None:
             ctx.count("excluded:plain-pytorch-op-differs-between-eager-and-compiled")
             ctx.skip("PyTorch's own op differs between eager and compiled for these inputs")
             return
-        if bad_out:
+        if backend == "inductor" and dtype != torch.float64:
+            # fused low-precision kernels accumulate in float32 where eager rounds after every op: judge against the float64 truth
+            try:
+                l64 = [t.detach().double().requires_grad_(t.requires_grad) if t.is_floating_point() else t.clone() for t in leaves()]
+                torch.manual_seed(0)
+                y64 = f(*l64)
+                g64 = torch.autograd.grad(y64, [t for t in l64 if t.requires_grad], up.double(), allow_unused=True) if y64.requires_grad else []
+
+                def dist(a, b):
+                    if a is None or b is None:
+                        return 0.0
+                    sc = max(float(b.abs().max()), 1e-300)
+                    return float((a.detach().double() - b).abs().max()) / sc
+                pairs = [(yc, ye, y64.detach())] + [(a, b, c) for a, b, c in zip(gc, ge, g64)]
+                ok = all(dist(a, c) <= 4 * dist(b, c) + tol for a, b, c in pairs)
+            except Exception:
+                ok = False
+            if ok:
+                ctx.count("lowp:compiled-no-farther-from-float64-truth-than-eager")
+                bad_out = bad_grad = None
+        if not (bad_out or bad_grad):
+            pass
+        elif bad_out:
             ctx.violation(f"{key}:output-differs-from-eager", bad_out, cfg=cfg, constraint=constraint, dtype=case["dtype"])
         else:
             ctx.violation(f"{key}:gradient-differs-from-eager:{bad_grad[0]}", bad_grad[1], cfg=cfg, constraint=constraint, dtype=case["dtype"])
+        bad_out = bad_grad = None
     ctx.nontrivial(f"{case['fn']}|{constraint}|{case['dtype']}|{backend}|{sorted((k, str(v)) for k, v in cfg.items() if not isinstance(v, float))}")
     # ---- plain torch.fx symbolic trace: forward values -------------------------------------------------
     if case.get("fx"):
